@@ -28,7 +28,10 @@ MENU = ['^packages*.classes', 'packages*.classes', '^packages*.classes.methods',
         # name-consuming steps followed by steps that consume nothing and lead back to an object already on the path
         'packages*.classes.methods.(..)', 'packages*.classes.methods.parent(Class)',
         'packages*.classes.methods.(..).(..)', 'packages.classes.attrs.parent(Package)', 'classes.methods.(..).~sup',
-        '^packages*.classes.methods.(..)*']
+        '^packages*.classes.methods.(..)*',
+        # a locally starting alternative beside one that starts at the model root only and walks without consuming names
+        '^classes,~packages*.classes', '..classes,~packages*.classes', 'parent(Package).classes,~packages*.~classes',
+        '^classes.methods,~packages*.~classes.methods', '.methods,~packages*.classes.methods', '^classes,~packages*.packages*.classes']
 NAMES = RR.ATTRS
 TYPES = RR.TYPES
 FIXED = [('a', "'"), ('b', '"'), ('c', "'")]
